@@ -36,7 +36,7 @@ NoTasks == [t \in {} |-> 0]
 TrInit ==
     /\ def = NoTasks /\ executing = {} /\ forks = {} /\ taskToForkKeys = NoTasks
     /\ ingest = <<>> /\ taskEdge = NoTasks /\ delivered = NoTasks
-    /\ written = <<>> /\ status = <<>> /\ nl = 0 /\ dead = {} /\ died = {}
+    /\ written = <<>> /\ status = <<>> /\ nl = 0 /\ dead = {} /\ died = {} /\ lk = NoLookup
     /\ l = 1 /\ inflight = {} /\ HWInit
 
 TrReset ==
@@ -48,7 +48,7 @@ TrReset ==
     /\ taskEdge' = [t \in DOMAIN Ln.tasks |-> <<>>]
     /\ delivered' = [t \in DOMAIN Ln.tasks |-> EmptyDelivered(Ln.tasks[t])]
     /\ written' = <<>> /\ status' = <<>> /\ nl' = 0 /\ inflight' = {}
-    /\ dead' = {} /\ died' = {}
+    /\ dead' = {} /\ died' = {} /\ lk' = NoLookup
 
 (* a failed clause names itself in TLC's output (triage aid) *)
 Chk(name, cond) == IF cond THEN TRUE ELSE PrintT(<<"C02-FAILED-CLAUSE", name, "line", l>>) /\ FALSE
@@ -103,9 +103,10 @@ SinkOK(t, k, q) ==
                /\ q[i].grp = Grp(def[t].froms[k], written[q[i].s]))
     /\ Chk("OrderPreserved / at most once", \A i \in 1..(Len(q) - 1) : q[i].s < q[i + 1].s)
     /\ Chk("ExactlyOnce",
-           \A s \in DOMAIN written :
-               (status[s][t] = "must" /\ ~Dies(t) /\ Selected(t, k, written[s]) /\ ~InIngest(s))
-                   => \E i \in DOMAIN q : q[i].s = s)
+           LET got == { q[i].s : i \in DOMAIN q }
+           IN  \A s \in DOMAIN written :
+                   (status[s][t] = "must" /\ ~Dies(t) /\ Selected(t, k, written[s]) /\ ~InIngest(s))
+                       => s \in got)
 
 (* the published statistics show no live input edge of a non-executing task with *)
 (* points collected on it (a live edge with nothing collected is only reported;   *)
@@ -149,7 +150,16 @@ TrLcRetV ==
     /\ DoLc(Ln.op, Ln.t)
     /\ inflight' = inflight \ {Ln.t}
 
-TrNextV == TrReset \/ TrWrite \/ TrLc \/ TrEnd \/ TrObsV \/ TrSyncV \/ TrSyncUptoV
+(* Histories that may take the whole process down run in a child process; the   *)
+(* parent appends a Died line (with the first line of the panic) when the child   *)
+(* did not survive.  No outcome of any history allows that: every other task must *)
+(* keep receiving its points.                                                      *)
+TrDied ==
+    /\ IsEv("Died")
+    /\ Chk("the daemon process survived", FALSE)
+    /\ UNCHANGED <<vars, inflight>>
+
+TrNextV == TrReset \/ TrWrite \/ TrLc \/ TrEnd \/ TrObsV \/ TrSyncV \/ TrSyncUptoV \/ TrDied
            \/ TrWrCallV \/ TrWrRetV \/ TrLcCallV \/ TrLcRetV
 TrSpecV == TrInit /\ [][TrNextV]_tvars
 
